@@ -33,6 +33,10 @@ for src in sorted(glob.glob(os.path.join(sys.argv[1], "*.go"))):
     v = subprocess.run(["go", "vet", "./..."], cwd=mod, env=env, capture_output=True, text=True)
     if v.returncode != 0:
         print("%-28s ACCEPT-BROKEN %s" % (name, (v.stdout + v.stderr).strip()[-500:].replace("\n", " | "))); continue
+    if glob.glob(os.path.join(mod, "p", "*_test.go")):
+        t = subprocess.run(["go", "test", "-count=1", "./p"], cwd=mod, env=env, capture_output=True, text=True)
+        if t.returncode != 0:
+            print("%-28s ACCEPT-TESTFAIL %s" % (name, (t.stdout + t.stderr).strip()[-700:].replace("\n", " | "))); continue
     gen = os.path.exists(os.path.join(mod, "p", "probe_gen.go"))
     print("%-28s ACCEPT-OK%s" % (name, "" if gen else " (no output file)"))
     if "--keep" not in sys.argv:
